@@ -18,8 +18,8 @@ theorem mem_replace {info : List QI} {q c : QI} (h : c ∈ replace info q) :
   unfold replace at h
   obtain ⟨o, ho, rfl⟩ := List.mem_map.mp h
   by_cases hn : o.name = q.name
-  · simp [hn]; exact ⟨o, ho, hn⟩
-  · simp [hn]; exact ho
+  · left; simp [hn]; exact ⟨o, ho, hn⟩
+  · right; simp [hn]; exact ho
 
 theorem mem_replace_of_ne {info : List QI} {q c : QI} (h : c ∈ info) (hn : c.name ≠ q.name) : c ∈ replace info q := by
   unfold replace
@@ -85,11 +85,12 @@ theorem ranked_replace {info : List QI} {q o : QI} (hu : Uniq info) (hnz : ∀ c
       intro ha
       have := (hitsUp_iff_anc r hx0 hnz hr (info.length + 1) q.parent [] (by simp) (by simp) (by simp) (by simp)).mpr ha
       rw [hp] at this; cases this
-    have hnot0 : ¬ Anc info q.name 0 := by
-      intro ha
+    have hnot0 : ∀ z, z = 0 → ¬ Anc info q.name z := by
+      intro z hz ha
       cases ha with
-      | self => exact hx0 rfl
-      | up hf _ => exact hnz _ (find_some hf).1 (find_some hf).2
+      | self => exact hx0 hz
+      | up hf _ => exact hnz _ (find_some hf).1 ((find_some hf).2.trans hz)
+    have hnot0 := hnot0 0 rfl
     refine ⟨fun y => open Classical in if Anc info q.name y then r y + r q.parent + 1 else r y, ?_, ?_⟩
     · simp [hnot0, r0]
     · intro c hc
